@@ -68,6 +68,15 @@ def programs(seed, n, kinds=("abelian", "fermionic"), syms=gen.SYMS, tids=None):
             # then mutate the out-of-place result in place: x must not notice (frame clause)
             res_rank = rank
             steps.append(followup(rng, kind, f"o{j}", 0))
+        if rank >= 2:
+            # the same out-of-place calls on an operand whose blocks are NOT stored in sorted order (a transpose)
+            pt = list(range(rank))
+            rng.shuffle(pt)
+            steps.append({"op": "transpose", "in": ["x"], "out": ["xt"], "args": {"axes": pt}})
+            steps.append({"op": "fuse", "in": ["xt"], "out": ["xt_f"], "args": {"groups": rand_groups(rng, rank)}, "entry": rng.choice(["method", "symmray", "autoray"])})
+            steps.append({"op": "fuse", "in": ["xt"], "out": ["xt_f2"], "args": {"groups": rand_groups(rng, rank), "mode": "concat"}})
+            steps.append({"op": "conj", "in": ["xt"], "out": ["xt_c"], "args": {}})
+            steps.append({"op": "tensordot", "in": ["xt", "xt_c"], "out": ["xt_n"], "args": {"axes": [list(range(rank)), list(range(rank))], "mode": "fused", "preserve_array": True}, "entry": "symmray"})
         progs.append({"tid": tids(), "inputs": {"x": x}, "steps": steps})
     return progs
 
